@@ -828,6 +828,10 @@ func c15(c *core.Check) {
 				if !st.drained && !st.blen.eq(wantLen) {
 					f3 = append(f3, "the length after the read is "+st.blen.String()+", not len+count")
 				}
+				// count > 0 must be excluded on a path that does not drain: a Read may return bytes together with an error
+				if !st.drained && !st.implies(affConst(0).add(cnt, -1)) {
+					f3 = append(f3, "this path leaves without calling send although count > 0 is not excluded on it (io.Reader may return n > 0 together with an error): the bytes just read stay unsearched in buf[off:], and Finish, which assumes they hold no newline, later delivers them as ONE line with the newlines inside")
+				}
 			}
 			c.Verdict(len(f3) == 0, "C15-R3", key, p, "len'=len+count; drained and prefix dropped when count>0", strings.Join(f3, "; ")+" ("+describe(st)+")")
 		}
